@@ -9,6 +9,37 @@ From V Require Import lib.Verdict lib.FsModel model.M_C38 proofs.P_C38.
 Import ListNotations.
 Open Scope Z_scope.
 
+(** For EVERY file system [f0] (any pre-existing files, directories and symbolic
+    links, inside and outside), EVERY entry list [es] (any names — "..", absolute,
+    empty elements, NUL —, any types in any order, any link targets, modes and
+    times) and every target [p0 ++ [c0]] whose parent directory [p0] is reached
+    through real directories: extraction with the repaired deferred update (flag
+    off), whether it succeeds or fails, leaves every object that is not at or below
+    the target exactly as it was — kind, link target, content, mode and explicit
+    modification time; the directory holding the target keeps its kind and mode
+    (its entry list, hence its own mtime, changes when the target is created). *)
+Theorem C38_confined : forall f0 p0 c0 es,
+  normal c0 -> real f0 p0 ->
+  confined (p0 ++ [c0]) f0 (fst (extract false f0 (p0 ++ [c0]) es)) = true.
+Proof. exact extract_confined. Qed.
+Print Assumptions C38_confined.
+
+Theorem C38_outside_unchanged : forall f0 p0 c0 es q,
+  normal c0 -> real f0 p0 -> under (p0 ++ [c0]) q = false ->
+  (q <> p0 -> get (fst (extract false f0 (p0 ++ [c0]) es)) q = get f0 q) /\
+  (q = p0 -> same_km (get f0 q) (get (fst (extract false f0 (p0 ++ [c0]) es)) q)).
+Proof. exact extract_outside_unchanged. Qed.
+Print Assumptions C38_outside_unchanged.
+
+(** No symbolic link is followed on the way: below a chain of real directories a
+    path resolves to itself (for any fuel and link budget), following or not. *)
+Theorem C38_resolution_is_lexical : forall pre n links f cur c follow q,
+  real_from f cur pre -> normal c ->
+  (follow = true -> forall i t, get f (cur ++ pre ++ [c]) = Some i -> i_kind i <> KLink t) ->
+  resolve n links f cur (pre ++ [c]) follow = Ok q -> q = cur ++ pre ++ [c].
+Proof. exact resolve_real. Qed.
+Print Assumptions C38_resolution_is_lexical.
+
 (** The extractor as it was before the repair (flag on): directory [r/d] with mode
     0700, then symlink [r/d -> ../out/d]: extraction succeeds and the mode of the
     directory B/out/d OUTSIDE the target B/t changes from 0755 to 0700 (finding
@@ -20,3 +51,15 @@ Theorem C38_deferred_refuted :
   confined w_t w_fs (fst (extract false w_fs w_t w_entries)) = true.
 Proof. exact deferred_refuted. Qed.
 Print Assumptions C38_deferred_refuted.
+
+(** Non-vacuity: the hypotheses of [C38_confined] hold for the witness world, the
+    target is really populated by the extraction, and the outside directory is there. *)
+Example C38_example :
+  w_t = [bs "B"] ++ [bs "t"] /\ normal (bs "t") /\ real w_fs [bs "B"] /\
+  (exists i, get (fst (extract false w_fs w_t w_entries)) [bs "B"; bs "t"; bs "d"] = Some i /\
+             i_kind i = KLink (bs "../out/d")) /\
+  get (fst (extract false w_fs w_t w_entries)) [bs "B"; bs "out"; bs "d"] = Some (w_dir 493 3).
+Proof.
+  split; [reflexivity|]. split; [repeat split; discriminate|]. split; [vm_compute; repeat split; discriminate|].
+  split; [eexists; split; vm_compute; reflexivity|vm_compute; reflexivity].
+Qed.
